@@ -6,38 +6,62 @@
 
    gw_run0 c h       : the model of window/global_window.go (processRow / shouldFire / buildResult,
                        running aggregator states, predicate rewritten to placeholders, each placeholder
-                       bound to a SELECT aggregate or to a trigger-only aggregator as gc_bind says);
+                       reading the SELECT aggregate gc_bind names for it, or its own trigger-only aggregator);
                        one output (None = nothing) per row of h
+   gw_bind_ok c      : the binding is faithful: every bound call reads a SELECT aggregate of the same function
+                       over the same field (column names are case sensitive: temp and Temp are two fields)
+   gw_eff_pred c     : the predicate as bound = every bound call replaced by the SELECT aggregate it reads
    gw_since0 c g h   : the rows of group g in h after g's last result in that run
    gw_agg_of a rows  : the aggregate a = fn(field) of a fresh aggregator fed with exactly these rows
    gw_holds p rows   : p on these aggregates with the condition engine's rules (an ordering comparison
                        with a NULL aggregate aborts the evaluation = not true; NULL = x false; NULL != x true)
    gw_holds3 p rows  : p on these aggregates in SQL's three-valued logic
    All theorems quantify over every configuration c (SELECT aggregates, predicate, binding) and every
-   row sequence; none depends on the binding. *)
+   row sequence. For EVERY binding the window is the reference semantics of the predicate as bound
+   (C17_refines_buffered_rows_as_bound, C17_fires_iff_as_bound, ...); for every FAITHFUL binding that is the
+   predicate as written, which gives the C17 clauses. The code's binding is not always faithful
+   (findOutputSpec compares column names case-insensitively): C17_fires_iff_any_binding_refuted. *)
 From SV Require Import Spec.GlobalWinSpec Proofs.GlobalWinProofs Proofs.GlobalWinMore.
 
 (* the code-level model equals the reference semantics that keeps the raw rows of every group *)
-Theorem C17_refines_buffered_rows : forall c h, gw_run0 c h = gw_spec_run c [] h.
+Theorem C17_refines_buffered_rows : forall c, gw_bind_ok c -> forall h, gw_run0 c h = gw_spec_run c [] h.
 Proof. exact gw_run0_spec. Qed.
 Print Assumptions C17_refines_buffered_rows.
 
+(* whatever the binding: the reference semantics of the predicate as bound; the window of c behaves as the
+   window of (gw_eff c), whose binding is faithful; a faithful binding leaves the predicate as written *)
+Theorem C17_refines_buffered_rows_as_bound : forall c h, gw_run0 c h = gw_spec_run (gw_eff c) [] h.
+Proof. exact gw_run0_spec_eff. Qed.
+Print Assumptions C17_refines_buffered_rows_as_bound.
+
+Theorem C17_runs_as_bound : forall c h, gw_run0 c h = gw_run0 (gw_eff c) h.
+Proof. exact gw_run0_as_bound. Qed.
+Print Assumptions C17_runs_as_bound.
+
+Theorem C17_as_bound_is_faithful : forall c, gw_bind_ok (gw_eff c).
+Proof. exact gw_eff_bind_ok. Qed.
+Print Assumptions C17_as_bound_is_faithful.
+
+Theorem C17_faithful_binding_keeps_predicate : forall c, gw_bind_ok c -> gw_eff c = c.
+Proof. exact gw_eff_ok. Qed.
+Print Assumptions C17_faithful_binding_keeps_predicate.
+
 (* a result is produced at a row r of group g iff p holds of g's rows since g's last result, r included *)
-Theorem C17_fires_iff : forall c h1 r h2,
+Theorem C17_fires_iff : forall c, gw_bind_ok c -> forall h1 r h2,
   (exists res, nth_error (gw_run0 c (h1 ++ r :: h2)) (length h1) = Some (Some res)) <->
   gw_holds (gc_pred c) (gw_since0 c (gw_key r) h1 ++ [r]) = true.
 Proof. exact gw_fires_iff. Qed.
 Print Assumptions C17_fires_iff.
 
 (* the result carries r's group columns and the SELECT aggregates over precisely those rows *)
-Theorem C17_result_exact : forall c h1 r h2 res,
+Theorem C17_result_exact : forall c, gw_bind_ok c -> forall h1 r h2 res,
   nth_error (gw_run0 c (h1 ++ r :: h2)) (length h1) = Some (Some res) ->
   res = (gw_key r, map (fun a => gw_agg_of a (gw_since0 c (gw_key r) h1 ++ [r])) (gc_outs c)).
 Proof. exact gw_result_exact. Qed.
 Print Assumptions C17_result_exact.
 
 (* no result while p is false *)
-Theorem C17_no_result_while_false : forall c h1 r h2,
+Theorem C17_no_result_while_false : forall c, gw_bind_ok c -> forall h1 r h2,
   gw_holds (gc_pred c) (gw_since0 c (gw_key r) h1 ++ [r]) = false ->
   nth_error (gw_run0 c (h1 ++ r :: h2)) (length h1) = Some None.
 Proof. exact gw_no_result_while_false. Qed.
@@ -45,7 +69,7 @@ Print Assumptions C17_no_result_while_false.
 
 (* after a result the group starts again from empty: no row is kept for it, and its later outputs
    are those of a new window that receives only the group's later rows *)
-Theorem C17_restart_empty : forall c h1 r h2 res,
+Theorem C17_restart_empty : forall c, gw_bind_ok c -> forall h1 r h2 res,
   nth_error (gw_run0 c (h1 ++ r :: h2)) (length h1) = Some (Some res) ->
   gw_since0 c (gw_key r) (h1 ++ [r]) = [] /\
   gw_project (gw_key r) (combine h2 (skipn (S (length h1)) (gw_run0 c (h1 ++ r :: h2)))) =
@@ -54,7 +78,7 @@ Proof. exact gw_restart_empty. Qed.
 Print Assumptions C17_restart_empty.
 
 (* rows of other groups neither trigger nor contribute: the outputs at the rows of g are those of a
-   window that only ever receives g's rows *)
+   window that only ever receives g's rows (for every binding) *)
 Theorem C17_group_isolation : forall c g h,
   gw_project g (combine h (gw_run0 c h)) = gw_run0 c (filter (gw_is_group g) h).
 Proof. exact gw_group_isolation. Qed.
@@ -106,19 +130,57 @@ Print Assumptions C17_max_is.
 
 (* the extracted checker accepts the model's output on every input, and whatever it accepts is the
    model's output row by row (values within 2^-40) *)
-Theorem C17_model_passes_checker : forall c h, chk_C17_engine c h (map gw_olist (gw_run0 c h)) = None.
+Theorem C17_model_passes_checker : forall c, gw_bind_ok c ->
+  forall h, chk_C17_engine c h (map gw_olist (gw_run0 c h)) = None.
 Proof. exact gw_model_passes_checker. Qed.
 Print Assumptions C17_model_passes_checker.
 
-Theorem C17_checker_complete : forall c h obs,
+Theorem C17_checker_complete : forall c, gw_bind_ok c -> forall h obs,
   chk_C17_engine c h obs = None -> Forall2 gw_same obs (gw_run0 c h).
 Proof. exact gw_checker_complete. Qed.
 Print Assumptions C17_checker_complete.
 
+(* ---- any binding: the clauses hold of the predicate as bound ... ---- *)
+Theorem C17_fires_iff_as_bound : forall c h1 r h2,
+  (exists res, nth_error (gw_run0 c (h1 ++ r :: h2)) (length h1) = Some (Some res)) <->
+  gw_holds (gw_eff_pred c) (gw_since0 c (gw_key r) h1 ++ [r]) = true.
+Proof. exact gw_fires_iff_as_bound. Qed.
+Print Assumptions C17_fires_iff_as_bound.
+
+Theorem C17_result_exact_as_bound : forall c h1 r h2 res,
+  nth_error (gw_run0 c (h1 ++ r :: h2)) (length h1) = Some (Some res) ->
+  res = (gw_key r, map (fun a => gw_agg_of a (gw_since0 c (gw_key r) h1 ++ [r])) (gc_outs c)).
+Proof. exact gw_result_exact_as_bound. Qed.
+Print Assumptions C17_result_exact_as_bound.
+
+Theorem C17_restart_empty_as_bound : forall c h1 r h2 res,
+  nth_error (gw_run0 c (h1 ++ r :: h2)) (length h1) = Some (Some res) ->
+  gw_since0 c (gw_key r) (h1 ++ [r]) = [] /\
+  gw_project (gw_key r) (combine h2 (skipn (S (length h1)) (gw_run0 c (h1 ++ r :: h2)))) =
+  gw_run0 c (filter (gw_is_group (gw_key r)) h2).
+Proof. exact gw_restart_empty_as_bound. Qed.
+Print Assumptions C17_restart_empty_as_bound.
+
+Theorem C17_model_passes_checker_as_bound : forall c h,
+  chk_C17_engine (gw_eff c) h (map gw_olist (gw_run0 c h)) = None.
+Proof. exact gw_model_passes_checker_as_bound. Qed.
+Print Assumptions C17_model_passes_checker_as_bound.
+
+(* ... but not of the predicate as written (finding F50): SELECT count( * ), max(temp) ...
+   TRIGGER WHEN max(Temp) > 5, the call bound to the SELECT's max(temp) as findOutputSpec does for two
+   column names that differ in letter case only; the row (temp = 9, Temp = 1) produces a result although
+   max(Temp) = 1 *)
+Theorem C17_fires_iff_any_binding_refuted :
+  ~ (forall c h1 r h2,
+       (exists res, nth_error (gw_run0 c (h1 ++ r :: h2)) (length h1) = Some (Some res)) <->
+       gw_holds (gc_pred c) (gw_since0 c (gw_key r) h1 ++ [r]) = true).
+Proof. exact gw_fires_iff_any_binding_refuted. Qed.
+Print Assumptions C17_fires_iff_any_binding_refuted.
+
 (* ---- "p is true" read in SQL's three-valued logic: false of the code (finding F-C17-NULL) ---- *)
 (* max(v) > 50 OR count( * ) >= 3 over three rows with v NULL: (unknown OR true) = true, no result *)
 Theorem C17_fires_iff_sql3vl_refuted :
-  ~ (forall c h1 r h2,
+  ~ (forall c, gw_bind_ok c -> forall h1 r h2,
        (exists res, nth_error (gw_run0 c (h1 ++ r :: h2)) (length h1) = Some (Some res)) <->
        gw_holds3 (gc_pred c) (gw_since0 c (gw_key r) h1 ++ [r]) = true).
 Proof. exact gw_fires_iff_sql3_refuted. Qed.
@@ -126,14 +188,14 @@ Print Assumptions C17_fires_iff_sql3vl_refuted.
 
 (* min(v) != 5 over one row with v NULL: unknown, yet a result (count 1, min NULL) is produced *)
 Theorem C17_no_result_while_false_sql3vl_refuted :
-  ~ (forall c h1 r h2,
+  ~ (forall c, gw_bind_ok c -> forall h1 r h2,
        gw_holds3 (gc_pred c) (gw_since0 c (gw_key r) h1 ++ [r]) = false ->
        nth_error (gw_run0 c (h1 ++ r :: h2)) (length h1) = Some None).
 Proof. exact gw_no_result_while_false_sql3_refuted. Qed.
 Print Assumptions C17_no_result_while_false_sql3vl_refuted.
 
 (* the three-valued reading holds wherever no aggregate referenced by p is NULL ... *)
-Theorem C17_fires_iff_sql3vl_partial : forall c h1 r h2,
+Theorem C17_fires_iff_sql3vl_partial : forall c, gw_bind_ok c -> forall h1 r h2,
   (forall a, In a (gw_calls (gc_pred c)) -> gw_agg_of a (gw_since0 c (gw_key r) h1 ++ [r]) <> None) ->
   ((exists res, nth_error (gw_run0 c (h1 ++ r :: h2)) (length h1) = Some (Some res)) <->
    gw_holds3 (gc_pred c) (gw_since0 c (gw_key r) h1 ++ [r]) = true).
@@ -141,7 +203,7 @@ Proof. exact gw_fires_iff_sql3_partial. Qed.
 Print Assumptions C17_fires_iff_sql3vl_partial.
 
 (* ... e.g. at every row that has a value in every field p refers to ... *)
-Theorem C17_fires_iff_sql3vl_row_values : forall c h1 r h2,
+Theorem C17_fires_iff_sql3vl_row_values : forall c, gw_bind_ok c -> forall h1 r h2,
   (forall a, In a (gw_calls (gc_pred c)) -> gw_input a r <> None) ->
   ((exists res, nth_error (gw_run0 c (h1 ++ r :: h2)) (length h1) = Some (Some res)) <->
    gw_holds3 (gc_pred c) (gw_since0 c (gw_key r) h1 ++ [r]) = true).
@@ -149,7 +211,7 @@ Proof. exact gw_fires_iff_sql3_row_values. Qed.
 Print Assumptions C17_fires_iff_sql3vl_row_values.
 
 (* ... and for every predicate over counts only *)
-Theorem C17_fires_iff_sql3vl_counts : forall c h1 r h2,
+Theorem C17_fires_iff_sql3vl_counts : forall c, gw_bind_ok c -> forall h1 r h2,
   (forall a, In a (gw_calls (gc_pred c)) -> gr_fn a = GwCount) ->
   ((exists res, nth_error (gw_run0 c (h1 ++ r :: h2)) (length h1) = Some (Some res)) <->
    gw_holds3 (gc_pred c) (gw_since0 c (gw_key r) h1 ++ [r]) = true).
@@ -164,7 +226,7 @@ Definition C17_ex_cfg : gw_config :=
   {| gc_outs := [ {| gr_fn := GwCount; gr_fld := None |}; {| gr_fn := GwSum; gr_fld := Some 0%nat |} ];
      gc_pred := GPAnd (GPAtom {| gr_fn := GwCount; gr_fld := None |} CmpGe 2)
                       (GPAtom {| gr_fn := GwMax; gr_fld := Some 0%nat |} CmpGt 5);
-     gc_bind := [true; false] |}.
+     gc_bind := [Some 0%nat; None] |}.
 Definition C17_ex_row (g : N) (v : option Q) : gw_row := {| gw_key := [g]; gw_vals := [v] |}.
 Definition C17_ex_h : list gw_row :=
   [ C17_ex_row 1 (Some 1); C17_ex_row 2 (Some 9); C17_ex_row 1 None; C17_ex_row 1 (Some 6);
@@ -175,5 +237,6 @@ Example C17_example :
   [ None; None; None; Some ([1%N], [Some 3; Some 7]); None; Some ([1%N], [Some 2; Some 15]) ]
   /\ gw_since0 C17_ex_cfg [2%N] C17_ex_h = [C17_ex_row 2 (Some 9)]
   /\ gw_since0 C17_ex_cfg [1%N] C17_ex_h = []
-  /\ chk_C17 C17_ex_cfg C17_ex_h (map gw_olist (gw_run0 C17_ex_cfg C17_ex_h)) = None.
+  /\ chk_C17 C17_ex_cfg C17_ex_h (map gw_olist (gw_run0 C17_ex_cfg C17_ex_h)) = None
+  /\ gw_bind_ok C17_ex_cfg.
 Proof. repeat split; vm_compute; reflexivity. Qed.
